@@ -11,6 +11,7 @@ verus! {
 //@include ../frag/rows.tpl
 //@include ../frag/unstable.tpl
 //@include ../frag/state.tpl
+//@include ../frag/bodies.tpl
 //@include ../frag/endpoints.tpl
 //@include ../frag/heartbeat.tpl
 //@include ../frag/headers.tpl
